@@ -35,17 +35,17 @@ impl InterruptRegister {
 pub struct Template { pub elements: Vec<Box<dyn Renderable>> }
 
 /// events of rendering elements[0..k) completely, in order, once each
-pub open spec fn children(t: &Template, k: int) -> Seq<Ev> {
-    Seq::new(k as nat, |j: int| Ev::Child(t.elements@[j].rid()))
+pub open spec fn children(t: &Template, rt: RtId, k: int) -> Seq<Ev> {
+    Seq::new(k as nat, |j: int| Ev::Child(t.elements@[j].rid(), rt))
 }
-proof fn lemma_children_step(t: &Template, k: int, pre: Seq<Ev>)
+proof fn lemma_children_step(t: &Template, rt: RtId, k: int, pre: Seq<Ev>)
     requires 0 <= k < t.elements@.len(),
-    ensures (pre + children(t, k)).push(Ev::Child(t.elements@[k].rid())) == pre + children(t, k + 1),
-            children(t, 0) == Seq::<Ev>::empty(), pre + children(t, 0) == pre,
+    ensures (pre + children(t, rt, k)).push(Ev::Child(t.elements@[k].rid(), rt)) == pre + children(t, rt, k + 1),
+            children(t, rt, 0) == Seq::<Ev>::empty(), pre + children(t, rt, 0) == pre,
 {
-    assert((pre + children(t, k)).push(Ev::Child(t.elements@[k].rid())) =~= pre + children(t, k + 1));
-    assert(pre + children(t, 0) =~= pre);
-    assert(children(t, 0) =~= Seq::<Ev>::empty());
+    assert((pre + children(t, rt, k)).push(Ev::Child(t.elements@[k].rid(), rt)) =~= pre + children(t, rt, k + 1));
+    assert(pre + children(t, rt, 0) =~= pre);
+    assert(children(t, rt, 0) =~= Seq::<Ev>::empty());
 }
 // (module so that the body's `super::InterruptRegister` path resolves as it does in runtime/template.rs)
 mod template { use super::*;
@@ -59,24 +59,24 @@ impl Template {
         sink_safe(*old(writer), *final(writer), r),                                               // [C10:template_failed_sink_is_error]
         // Ok: a prefix of the elements was rendered, in order, each exactly once (all of them unless an interrupt was raised)
         r is Ok ==> (exists|k: int| 0 <= k <= self.elements@.len() &&
-            final(writer).log@ == old(writer).log@ + #[trigger] children(self, k)),               // [C05:body_renders_elements_in_order_once] [C10:template_ok_trace]
+            final(writer).log@ == old(writer).log@ + #[trigger] children(self, runtime.ident(), k)),               // [C05:body_renders_elements_in_order_once] [C10:template_ok_trace]
         // Err: the elements before the failing one were rendered completely; nothing after it was started
         r is Err ==> (exists|k: int| 0 <= k < self.elements@.len() && (
-            final(writer).log@ == old(writer).log@ + #[trigger] children(self, k)
-            || final(writer).log@ == (old(writer).log@ + children(self, k)).push(Ev::Partial(self.elements@[k].rid())))),   // [C10:template_stops_at_first_error]
+            final(writer).log@ == old(writer).log@ + #[trigger] children(self, runtime.ident(), k)
+            || final(writer).log@ == (old(writer).log@ + children(self, runtime.ident(), k)).push(Ev::Partial(self.elements@[k].rid(), runtime.ident())))),   // [C10:template_stops_at_first_error]
 //@ edit <<for el in &self.elements>> => <<for el in it: &self.elements>> why: names Verus' ghost iterator so that the invariant can refer to the position
 //@ loop 0 kind=for
     invariant_except_break
-        writer.log@ == old(writer).log@ + children(self, it.index@),
+        writer.log@ == old(writer).log@ + children(self, runtime.ident(), it.index@),
     invariant
         !writer.failed@,
         0 <= it.index@ <= self.elements@.len(),
     ensures
-        exists|k: int| 0 <= k <= self.elements@.len() && writer.log@ == old(writer).log@ + #[trigger] children(self, k),
+        exists|k: int| 0 <= k <= self.elements@.len() && writer.log@ == old(writer).log@ + #[trigger] children(self, runtime.ident(), k),
 //@ prologue
-    proof { assert(old(writer).log@ + children(self, 0) =~= old(writer).log@); }
+    proof { assert(old(writer).log@ + children(self, runtime.ident(), 0) =~= old(writer).log@); }
 //@ ghost after <<el.render_to(writer, runtime)?;>>
-    proof { lemma_children_step(self, it.index@, old(writer).log@); }
+    proof { lemma_children_step(self, runtime.ident(), it.index@, old(writer).log@); }
 //@ end
 }
 }
